@@ -152,8 +152,8 @@ def allFrom (p : Int → Bool) : Nat → Int → Bool
   | n + 1, c => p c && allFrom p n (c + 1)
 
 /-- `D01`: the (state, operation) pairs on which the recorded diff list is proved to undo and
-    redo the operation exactly.  Outside it: `delete_sheet` of a sheet that has links (the undo does
-    not restore them — finding F01d), states
+    redo the operation exactly.  Outside it: `delete_sheet` of a sheet with local defined names (undo
+    re-creates them at the end of the name list — F01o), states
     whose stored timezone/locale/frozen counts would themselves be rejected by the setters, and —
     for the three sheet-list operations, books whose names are not valid and unique. -/
 def dom (b : Book) : Op → Bool
@@ -190,12 +190,11 @@ def dom (b : Book) : Op → Bool
   | .deleteSheet i =>
     -- the deleted sheet's name is valid and no other sheet has it (true of well-formed books)
     -- and it has no local defined names: undo re-creates those at the END of the name list
-    -- (`new_defined_name` appends), so the list order is not restored exactly;
-    -- and the sheet has no links (the undo does not restore them: finding F01d)
+    -- (`new_defined_name` appends), so the list order is not restored exactly (F01o)
     match b.sheets[i]? with
     | some sh => isValidSheetName sh.name &&
         !nameTaken env { b with sheets := b.sheets.eraseIdx i } sh.name &&
-        !(b.names.any fun d => d.sheetId == some sh.id) && sh.links.isEmpty
+        !(b.names.any fun d => d.sheetId == some sh.id)
     | none => true
   | .setColumnsWidth s c1 c2 _ =>
     match b.sheets[s]? with
@@ -1009,8 +1008,8 @@ theorem op_chain (b : Book) (o : Op) (ds : List Diff) (hd : dom env b o = true)
     | ok sh =>
       have hsome := getSheet_ok hs
       have hi : i < b.sheets.length := (List.getElem?_eq_some_iff.mp hsome).1
-      simp only [dom, hsome, Bool.and_eq_true, Bool.not_eq_true', List.isEmpty_iff] at hd
-      obtain ⟨⟨⟨hvalid, hfree⟩, hnoloc⟩, hnolinks⟩ := hd
+      simp only [dom, hsome, Bool.and_eq_true, Bool.not_eq_true'] at hd
+      obtain ⟨⟨hvalid, hfree⟩, hnoloc⟩ := hd
       have hno : ∀ d ∈ b.names, (d.sheetId == some sh.id) = false := by
         intro d hd
         cases hq : d.sheetId == some sh.id with
@@ -1047,8 +1046,9 @@ theorem op_chain (b : Book) (o : Op) (ds : List Diff) (hd : dom env b o = true)
             set_insertIdx _ _ _ _ hle']
           have hsh : ({ emptySheet sh.name sh.id with
               rowAt := sh.rowAt, colAt := sh.colAt, grid := sh.grid, frozenCols := sh.frozenCols,
-              frozenRows := sh.frozenRows, state := sh.state, color := sh.color } : Sheet) = sh := by
-            cases sh; simp only [emptySheet] at hnolinks ⊢; simp_all
+              frozenRows := sh.frozenRows, state := sh.state, color := sh.color,
+              links := sh.links } : Sheet) = sh := by
+            cases sh; rfl
           rw [hsh, insertIdx_eraseIdx _ _ _ hsome]
         · simp only [fwd1, mDeleteSheet, h1, h2, if_false, hnames]
   | setColumnsWidth s c1 c2 w =>
